@@ -6,7 +6,11 @@ ROOT = os.path.dirname(os.path.dirname(os.path.abspath(__file__)))
 PROPS = os.path.join(ROOT, "lean", "Reclass", "Props")
 out = {}
 for pid in sorted(set(re.match(r"(C\d+)", os.path.basename(f)).group(1) for f in glob.glob(os.path.join(PROPS, "C*.lean")))):
-    files = sorted(glob.glob(os.path.join(PROPS, pid + "*.lean")))
+    extra = json.load(open(os.path.join(ROOT, "tools", "prop_modules.json"))).get(pid, [])
+    files = [os.path.join(PROPS, pid + ".lean")] + [os.path.join(PROPS, e + ".lean") for e in extra]
+    files = [f for f in files if os.path.exists(f)]
+    if not files:
+        continue
     thms = []
     mods = []
     for f in files:
